@@ -8,9 +8,12 @@ import (
 	"fmt"
 	"net/http"
 	"net/http/httptest"
+	"os"
+	"path/filepath"
 	"strconv"
 	"strings"
 	"sync"
+	"syscall"
 	"time"
 )
 
@@ -235,11 +238,21 @@ func (x *c06Run) request(ep string, body c06Body, shape string) (status int, ses
 	return
 }
 
+// C11 runs a few of these sequences as well (prop tag C11W): the web layer in front of the dispatcher
+// must answer every request as the sequential semantics do, whatever other connections sent before
+var c11WebRounds = 0
+
 func runC06(em *vEmitter, r *vRng) {
 	thorough := vThorough()
 	nseq := 12
 	if thorough {
 		nseq = 200
+	}
+	if c11WebRounds > 0 {
+		nseq = c11WebRounds
+		if thorough {
+			nseq = 20
+		}
 	}
 	eps := []string{"authenticate", "add", "remove", "update", "set-admin", "list", "list-full"}
 	shapes := []string{"valid", "valid", "valid", "omit-empty", "omit-empty", "only-target", "extra-unknown", "trailing-junk", "dup-keys", "missing-username", "null-username", "wrong-type", "not-json", "empty-body", "array", "empty-session"}
@@ -407,12 +420,24 @@ func runC06(em *vEmitter, r *vRng) {
 		if seq == 2 {
 			var wg sync.WaitGroup
 			var cmu sync.Mutex
-			for g := 0; g < 12; g++ {
+			// someone who still exists at this point of the sequence, with the password the harness tracked
+			var known []string
+			for u := range x.pw {
+				if x.pw[u] != "" && !strings.ContainsAny(u, " \x00/:") {
+					known = append(known, u)
+				}
+			}
+			sortStrings(known)
+			cu := "root"
+			if len(known) > 0 {
+				cu = known[len(known)-1]
+			}
+			for g := 0; g < 12 && len(known) > 0; g++ {
 				wg.Add(1)
 				go func(g int) {
 					defer wg.Done()
 					for i := 0; i < 40; i++ {
-						u, pw, right := "root", x.pw["root"], true
+						u, pw, right := cu, x.pw[cu], true
 						switch (g + i) % 3 {
 						case 1:
 							u, pw, right = "alice", "definitely-wrong", false
@@ -440,6 +465,75 @@ func runC06(em *vEmitter, r *vRng) {
 			c.Violation = x.viol
 		}
 		em.emit(c)
+		// after a reload that switches to ANOTHER store directory (every third sequence): the same listener,
+		// the same session factory - the sessions handed out so far stay what they are - but passwords,
+		// existence and admin status are now those of the new directory
+		if seq%3 == 1 {
+			newBase := filepath.Join(ms.root, "newbase")
+			os.Mkdir(newBase, 0700)
+			ms2 := *ms
+			ms2.base = newBase
+			ms2.plant("root", true, 1, 1600000100, r.bytes(16), []byte("rootpw-new"), "")
+			ms2.plant("alice", true, 2, 1600000101, r.bytes(32), []byte("alicepw-new"), "")
+			ms2.plant("carol", false, 1, 1600000102, r.bytes(16), []byte("carolpw"), "")
+			ms2.plant("mallory", false, 3, 1600000103, r.bytes(16), []byte("mallorypw"), "")
+			os.WriteFile(ms.cfgfile, []byte(mYaml(newBase, 1, ms.params)), 0600)
+			syscall.Kill(os.Getpid(), syscall.SIGHUP)
+			switched := false
+			for i := 0; i < 200 && !switched; i++ {
+				time.Sleep(10 * time.Millisecond)
+				if l, err := st.GetInterface().List(); err == nil {
+					_, hasM := l["mallory"]
+					switched = hasM
+				}
+			}
+			y := &c06Run{ms: &ms2, mux: mux, sess: x.sess, other: x.other, pw: map[string]string{"root": "rootpw-new", "alice": "alicepw-new", "carol": "carolpw", "mallory": "mallorypw"}}
+			// the sessions of the first part are part of this part's history
+			y.logInit = append([]string{}, x.logInit...)
+			for _, k := range []string{"admin", "user", "admin2", "user2"} {
+				parts := strings.SplitN(tokens[k], ":", 2)
+				if len(parts) != 2 {
+					continue
+				}
+				n, _ := base64.URLEncoding.DecodeString(parts[0])
+				ct, _ := base64.URLEncoding.DecodeString(parts[1])
+				if stt, _, pt := x.sess.openToken(n, ct); stt == http.StatusOK {
+					y.logInit = append(y.logInit, fmt.Sprintf("{| s_nonce := %s; s_ct := %s; s_pt := %s |}", cH(n), cH(ct), cS(pt)))
+				}
+			}
+			y.initDir = ms2.snapshotTerm()
+			y.lastSnap = y.initDir
+			if !switched {
+				y.viol = "the agent did not switch to the new store directory within 2 s of the reload signal"
+			}
+			// logins: old-store passwords are no longer current, new-store ones are; admin status is the new one
+			for _, q := range [][2]string{{"root", "rootpw"}, {"root", "rootpw-new"}, {"alice", "alicepw"}, {"alice", "alicepw-new"}, {"bob", "bobpw"},
+				{"carol", "carolpw"}, {"mallory", "mallorypw"}, {"mallory", "wrong"}} {
+				y.request("authenticate", c06Body{username: q[0], password: q[1]}, "valid")
+			}
+			// password changes authorised by the old password: only the CURRENT one counts
+			y.request("update", c06Body{username: "alice", old: "alicepw", new: "byold" + strconv.Itoa(seq)}, "valid")
+			y.request("update", c06Body{username: "bob", old: "bobpw", new: "byold" + strconv.Itoa(seq)}, "valid")
+			y.request("update", c06Body{username: "mallory", old: "mallorypw", new: "mallorypw2"}, "valid")
+			// sessions issued before the reload keep the identity and flag they were issued for
+			for _, k := range []string{"admin", "user", "admin2", "user2", "other-instance", "expired-admin"} {
+				y.request("list", c06Body{session: tokens[k]}, "valid")
+				y.request("update", c06Body{session: tokens[k], username: "carol", new: "bysess" + k}, "valid")
+			}
+			_, tm := y.request("authenticate", c06Body{username: "mallory", password: "mallorypw2"}, "valid")
+			_, ta := y.request("authenticate", c06Body{username: "alice", password: "alicepw-new"}, "valid")
+			for _, tk := range []string{tm, ta} {
+				y.request("list-full", c06Body{session: tk}, "valid")
+				y.request("set-admin", c06Body{session: tk, username: "mallory", admin: true}, "valid")
+				y.request("add", c06Body{session: tk, username: "newafter", password: "pw", admin: false}, "valid")
+			}
+			coq2 := fmt.Sprintf("WebSeq %s %s %s %s %d %s", ms2.cfgTerm(), ms2.tablesTerm(), y.initDir, cList(y.logInit), 600000, cList(y.steps))
+			c2 := vCase{Prop: "C06", Kind: "webseq", Class: "sequence/after-reload-to-new-directory", Nontrivial: true, Coq: coq2, Human: map[string]interface{}{"requests": y.human}}
+			if y.viol != "" {
+				c2.Violation = y.viol
+			}
+			em.emit(c2)
+		}
 		ms.cleanup()
 	}
 	em.emit(vCase{Prop: "C06", Kind: "stats", Class: "stats", Human: vStats})
